@@ -9,6 +9,7 @@ mod bridge;
 mod core;
 mod cv;
 mod driver;
+mod ext;
 mod gen;
 mod hist;
 mod keys;
